@@ -20,7 +20,7 @@ META = {
     "require": {t: ["format:nan", "format:tuple", "format:plain0", "cube:ccube", "cube:xcube",
                     "class:missing_in_common_category", "class:cols_different_patterns", "class:weights+facts_missing",
                     "cells:missing_by_value", "cells:missing_no_rows", "class:ignore", "class:propagate",
-                    "class:cell_counter_on_boundary", "class:more_than_1024_cells", "class:cells_of_very_unequal_weight", "class:same_argument_objects_for_every_call"]
+                    "class:cell_counter_on_boundary", "class:more_than_1024_cells", "class:cells_of_very_unequal_weight", "class:same_argument_objects_for_every_call", "class:argument_arrays_edited_in_place_between_calls"]
                 for t in ("quick", "thorough")},
     "assumptions": ["a sentinel is compared as cast to the result dtype (an integer result cannot hold 2.5)",
                     "valid_count with a plain replacement value under propagation is excluded as the property states"],
@@ -148,6 +148,41 @@ def judge(ctx, case):
                     ctx.violation("formats-differ:%s:%s" % (label, feat),
                                   "%s.%s: non-missing values differ between report formats (%s)" % (cname, agg, label), case)
                     return
+    # The caller's own arrays, edited IN PLACE between two calls (imputation: a missing value filled in, a value
+    # struck out), and handed over again as the same objects: the second round must see the new content.
+    if shared is not None and shared.get("f") is not None and n >= 2:
+        fobj = shared["f"]
+        vals_obj = fobj[0] if isinstance(fobj, tuple) else fobj
+        if isinstance(vals_obj, numpy.ndarray) and vals_obj.dtype.kind == "f" and vals_obj.flags.writeable:
+            f2 = {"values": f["values"].copy(), "validity": None if f["validity"] is None else f["validity"].copy(),
+                  "dyadic": f.get("dyadic", False)}
+            r0, r1 = 0, n - 1
+            if f["validity"] is None:
+                # NaN-marked form: row r0 becomes missing, row r1 gets a value
+                for arr in (vals_obj, f2["values"]):
+                    arr[r0] = numpy.nan
+                    arr[r1] = 1.25
+            else:
+                for arr in (fobj[1], f2["validity"]):
+                    arr[r0] = False
+                    arr[r1] = True
+                for arr in (vals_obj, f2["values"]):
+                    arr[r1] = 1.25
+            case2 = dict(case, fact=f2)
+            ctx.count("class:argument_arrays_edited_in_place_between_calls")
+            for agg in ("sum", "mean", "valid_count"):
+                tol = aggr.tolerance(case2, agg)
+                ref_v, ref_m = aggr.reference(case2, agg, dense, exp_shape)
+                for cname, cube in cubes:
+                    res = aggr.call(cube, agg, case2, NaN, shared=shared)
+                    ctx.evaluation({"c": {k: case2[k] for k in ("dense", "commons", "shape", "fact", "weights", "ignore_missing")},
+                                    "a": agg, "cube": cname, "fmt": "nan", "edited": True}, True)
+                    bad = oracles.compare(res, NaN, ref_v, ref_m, tol)
+                    if bad:
+                        ctx.violation("after-in-place-edit-of-the-fact-array:%s:%s" % (bad[0], aggr.feature_key(case2, agg, cname)),
+                                      "%s.%s after the caller edited its fact array in place (row %d struck out, row %d filled) and "
+                                      "passed the same object again: %s" % (cname, agg, r0, r1, bad[1]), case2)
+                        return
     if ctx.evals % 700 < 24 and len(ctx.samples) < 4:
         ctx.sample({"dense": dense, "commons": case["commons"], "fact": fx, "fact_validity": f["validity"],
                     "weights": w, "ignore_missing": case["ignore_missing"], "sentinel": sentinel})
